@@ -258,6 +258,155 @@ impl SpMat {
     //@| assert forall|i: int, j: int| 0 <= i < self.sh@.0 && 0 <= j < self.sh@.1 implies #[trigger] __ret.at(i, q.m@[j] as int) == self.at(i, j) by { assert(id.m@[i] == i); assert(__ret.at(id.m@[i] as int, q.m@[j] as int) == self.at(i, j)); }
 }
 
+// ---------------------------------------------------------------- is_id (defect D5, repaired in 1866444)
+/// a stored entry agrees with the identity matrix
+pub open spec fn idok(e: Tv) -> bool { (e.0 == e.1 && e.2 == r1()) || (e.0 != e.1 && e.2 == r0()) }
+/// the diagonal indices among the first p stored entries
+pub open spec fn dsel(es: Seq<Tv>, p: int) -> Seq<usize> decreases p { if p <= 0 { Seq::empty() } else if es[p - 1].0 == es[p - 1].1 { dsel(es, p - 1).push(es[p - 1].0) } else { dsel(es, p - 1) } }
+/// the stored entry the u-th diagonal index comes from
+pub open spec fn dsrc(es: Seq<Tv>, p: int, u: int) -> int decreases p {
+    if p <= 0 { -1 } else if es[p - 1].0 == es[p - 1].1 && u == dsel(es, p - 1).len() { p - 1 } else { dsrc(es, p - 1, u) }
+}
+pub proof fn lemma_dsrc(es: Seq<Tv>, p: int, u: int)
+    requires 0 <= p <= es.len(), 0 <= u < dsel(es, p).len()
+    ensures 0 <= dsrc(es, p, u) < p, es[dsrc(es, p, u)].0 == es[dsrc(es, p, u)].1, dsel(es, p)[u] == es[dsrc(es, p, u)].0,
+        forall|u2: int| u < u2 < dsel(es, p).len() ==> dsrc(es, p, u) < #[trigger] dsrc(es, p, u2),
+    decreases p
+{
+    if p > 0 {
+        let b0 = dsel(es, p - 1);
+        if es[p - 1].0 == es[p - 1].1 {
+            if u < b0.len() { lemma_dsrc(es, p - 1, u); }
+            assert forall|u2: int| u < u2 < dsel(es, p).len() implies dsrc(es, p, u) < #[trigger] dsrc(es, p, u2) by {
+                assert(dsel(es, p).len() == b0.len() + 1);
+                if u2 < b0.len() { assert(dsrc(es, p, u2) == dsrc(es, p - 1, u2)); assert(dsrc(es, p - 1, u) < dsrc(es, p - 1, u2)); }
+                else { assert(dsrc(es, p, u2) == p - 1); assert(dsrc(es, p, u) == dsrc(es, p - 1, u)); }
+            }
+        } else {
+            lemma_dsrc(es, p - 1, u);
+            assert forall|u2: int| u < u2 < dsel(es, p).len() implies dsrc(es, p, u) < #[trigger] dsrc(es, p, u2) by { assert(dsrc(es, p - 1, u) < dsrc(es, p - 1, u2)); }
+        }
+    }
+}
+pub proof fn lemma_didx(es: Seq<Tv>, p: int, t: int)
+    requires 0 <= t < p <= es.len(), es[t].0 == es[t].1
+    ensures 0 <= dsel(es, t).len() < dsel(es, p).len(), dsel(es, p)[dsel(es, t).len() as int] == es[t].0
+    decreases p
+{ if p - 1 == t { } else { lemma_didx(es, p - 1, t); } }
+pub proof fn lemma_dsel_len(es: Seq<Tv>, p: int) requires 0 <= p ensures dsel(es, p).len() <= p decreases p { if p > 0 { lemma_dsel_len(es, p - 1); } }
+/// pairwise different numbers below n: at most n of them, and exactly n only if every number below n occurs
+pub proof fn lemma_nodup_le(q: Seq<usize>, n: int)
+    requires 0 <= n, forall|k: int| 0 <= k < q.len() ==> (#[trigger] q[k] as int) < n, forall|k: int, l: int| 0 <= k < l < q.len() ==> #[trigger] q[k] != #[trigger] q[l],
+    ensures q.len() <= n
+    decreases n
+{
+    if q.len() > 0 {
+        if n == 0 { assert((q[0] as int) < 0); }
+        else if exists|k: int| 0 <= k < q.len() && #[trigger] q[k] as int == n - 1 {
+            let k = choose|k: int| 0 <= k < q.len() && #[trigger] q[k] as int == n - 1;
+            let r = q.remove(k);
+            assert forall|a: int| 0 <= a < r.len() implies (#[trigger] r[a] as int) < n - 1 by { if a < k { assert(r[a] == q[a]); assert(q[a] != q[k]); } else { assert(r[a] == q[a + 1]); assert(q[k] != q[a + 1]); } }
+            assert forall|a: int, b: int| 0 <= a < b < r.len() implies #[trigger] r[a] != #[trigger] r[b] by { let a2 = if a < k { a } else { a + 1 }; let b2 = if b < k { b } else { b + 1 }; assert(r[a] == q[a2] && r[b] == q[b2]); assert(q[a2] != q[b2]); }
+            lemma_nodup_le(r, n - 1);
+        } else { assert forall|a: int| 0 <= a < q.len() implies (#[trigger] q[a] as int) < n - 1 by { }; lemma_nodup_le(q, n - 1); }
+    }
+}
+pub proof fn lemma_nodup_full(q: Seq<usize>, n: int, i0: int)
+    requires 0 <= i0 < n, q.len() == n, forall|k: int| 0 <= k < q.len() ==> (#[trigger] q[k] as int) < n, forall|k: int, l: int| 0 <= k < l < q.len() ==> #[trigger] q[k] != #[trigger] q[l],
+    ensures exists|k: int| 0 <= k < q.len() && #[trigger] q[k] as int == i0
+{
+    if !(exists|k: int| 0 <= k < q.len() && #[trigger] q[k] as int == i0) {
+        // squeeze the values above i0 down by one: still pairwise different, now below n - 1
+        let r = Seq::new(q.len(), |k: int| if (q[k] as int) > i0 { (q[k] - 1) as usize } else { q[k] });
+        assert forall|k: int| 0 <= k < r.len() implies (#[trigger] r[k] as int) < n - 1 by { assert((q[k] as int) < n); assert(q[k] as int != i0); }
+        assert forall|k: int, l: int| 0 <= k < l < r.len() implies #[trigger] r[k] != #[trigger] r[l] by { assert(q[k] != q[l]); assert(q[k] as int != i0 && q[l] as int != i0); }
+        lemma_nodup_le(r, n - 1);
+    }
+}
+pub open spec fn covers(q: Seq<usize>, i: int) -> bool { exists|k: int| 0 <= k < q.len() && #[trigger] q[k] as int == i }
+pub proof fn lemma_cover_ge(q: Seq<usize>, n: int)
+    requires 0 <= n, forall|i: int| 0 <= i < n ==> #[trigger] covers(q, i)
+    ensures q.len() >= n
+    decreases n
+{
+    if n > 0 {
+        assert(covers(q, n - 1));
+        let k = choose|k: int| 0 <= k < q.len() && #[trigger] q[k] as int == n - 1;
+        let r = q.remove(k);
+        assert forall|i: int| 0 <= i < n - 1 implies #[trigger] covers(r, i) by {
+            assert(covers(q, i));
+            let k1 = choose|k1: int| 0 <= k1 < q.len() && #[trigger] q[k1] as int == i;
+            if k1 < k { assert(r[k1] == q[k1]); } else { assert(k1 > k); assert(r[k1 - 1] == q[k1]); }
+        }
+        lemma_cover_ge(r, n - 1);
+    }
+}
+/// the matrix with stored entries es (square of size n) is the identity  <=>  every stored entry agrees with it and n diagonal entries are stored
+pub proof fn lemma_is_id(es: Seq<Tv>, n: int)
+    requires distinct(es), inside(es, n, n), 0 <= n
+    ensures ((forall|t: int| 0 <= t < es.len() ==> idok(#[trigger] es[t])) && dsel(es, es.len() as int).len() == n)
+        <==> (forall|i: int, j: int| 0 <= i < n && 0 <= j < n ==> #[trigger] val(es, i, j) == (if i == j { r1() } else { r0() }))
+{
+    let p = es.len() as int; let d = dsel(es, p);
+    ax_nontrivial();
+    assert forall|u: int| 0 <= u < d.len() implies (#[trigger] d[u] as int) < n by { lemma_dsrc(es, p, u); assert(es[dsrc(es, p, u)].0 < n); }
+    assert forall|u: int, w: int| 0 <= u < w < d.len() implies #[trigger] d[u] != #[trigger] d[w] by {
+        lemma_dsrc(es, p, u); lemma_dsrc(es, p, w); let (a, b) = (dsrc(es, p, u), dsrc(es, p, w)); assert(a < b); assert(!(es[a].0 == es[b].0 && es[a].1 == es[b].1));
+    }
+    if (forall|t: int| 0 <= t < es.len() ==> idok(#[trigger] es[t])) && d.len() == n {
+        assert forall|i: int, j: int| 0 <= i < n && 0 <= j < n implies #[trigger] val(es, i, j) == (if i == j { r1() } else { r0() }) by {
+            if i == j {
+                lemma_nodup_full(d, n, i);
+                let u = choose|u: int| 0 <= u < d.len() && #[trigger] d[u] as int == i;
+                lemma_dsrc(es, p, u); let t = dsrc(es, p, u);
+                lemma_val(es, t); assert(idok(es[t]));
+            } else if has(es, i, j) { let t = pos(es, i, j); assert(idok(es[t])); }
+        }
+    }
+    if forall|i: int, j: int| 0 <= i < n && 0 <= j < n ==> #[trigger] val(es, i, j) == (if i == j { r1() } else { r0() }) {
+        assert forall|t: int| 0 <= t < es.len() implies idok(#[trigger] es[t]) by { lemma_val(es, t); assert(val(es, es[t].0 as int, es[t].1 as int) == es[t].2); }
+        assert forall|i: int| 0 <= i < n implies #[trigger] covers(d, i) by {
+            assert(val(es, i, i) == r1()); assert(has(es, i, i)); let t = pos(es, i, i);
+            lemma_didx(es, p, t); assert(d[dsel(es, t).len() as int] as int == i);
+        }
+        lemma_cover_ge(d, n); lemma_nodup_le(d, n);
+    }
+}
+
+impl SpMat {
+    #[verifier::external_body] pub fn is_square(&self) -> (r: bool) ensures r == (self.sh@.0 == self.sh@.1) { unimplemented!() }
+    /// the identity test: true exactly for the n x n matrix with ones on the diagonal and zeros elsewhere (stored or not)
+    pub fn is_id(&self) -> (r: bool)
+        requires self.wf(), self.es@.len() <= usize::MAX,   // (representability: a matrix stores at most usize::MAX entries)
+        ensures r == (self.sh@.0 == self.sh@.1 && forall|i: int, j: int| 0 <= i < self.sh@.0 && 0 <= j < self.sh@.1 ==> #[trigger] self.at(i, j) == (if i == j { r1() } else { r0() })),
+    //@body impl/SpMat/is_id for_iter=1 loops=2
+    //@+ loop 0 header
+    //@| self.iter().all(|(i, j, a)|
+    //@+ loop 1 header
+    //@| self.iter().filter(|(i, j, _)|
+    //@+ loop 0
+    //@| invariant __it0.es@ == self.es@, 0 <= __it0.pos@ <= __it0.es@.len(), __all0 ==> forall|t: int| 0 <= t < __it0.pos@ ==> idok(#[trigger] self.es@[t]),
+    //@|     !__all0 ==> exists|t: int| 0 <= t < self.es@.len() && !idok(#[trigger] self.es@[t]),
+    //@| ensures __all0 ==> __it0.pos@ == __it0.es@.len(),
+    //@| decreases __it0.es@.len() - __it0.pos@,
+    //@+ loop 0 begin
+    //@| assert(i == self.es@[__it0.pos@ - 1].0 && j == self.es@[__it0.pos@ - 1].1 && a.v() == self.es@[__it0.pos@ - 1].2);
+    //@+ loop 1
+    //@| invariant __it1.es@ == self.es@, 0 <= __it1.pos@ <= __it1.es@.len(), __cnt1 == dsel(self.es@, __it1.pos@).len(), __cnt1 <= __it1.pos@, self.es@.len() <= usize::MAX,
+    //@| ensures __it1.pos@ == __it1.es@.len(),
+    //@| decreases __it1.es@.len() - __it1.pos@,
+    //@+ loop 1 end
+    //@| assert(*i == self.es@[__it1.pos@ - 1].0 && *j == self.es@[__it1.pos@ - 1].1);
+    //@+ post
+    //@| if self.sh@.0 == self.sh@.1 {
+    //@|     let n = self.sh@.0 as int;
+    //@|     lemma_is_id(self.es@, n);
+    //@|     if forall|i: int, j: int| 0 <= i < n && 0 <= j < n ==> #[trigger] self.at(i, j) == (if i == j { r1() } else { r0() }) {
+    //@|         assert forall|i: int, j: int| 0 <= i < n && 0 <= j < n implies #[trigger] val(self.es@, i, j) == (if i == j { r1() } else { r0() }) by { assert(self.at(i, j) == val(self.es@, i, j)); }
+    //@|     }
+    //@| }
+}
+
 // ================================================================ SpVec (yui-matrix/src/sparse/sp_vec.rs)
 //@source yui-matrix/src/sparse/sp_vec.rs
 /// a stored entry of a sparse vector: (index, value)
